@@ -3,7 +3,7 @@
     and the hand-modelled kernel comparisons of Model/VoteSummary.v. *)
 From Coq Require Import List NArith ZArith String Bool Lia ZifyBool ZifyN Permutation.
 From GV Require Import Base.Ints Gen.Math Gen.Step Model.VoteSummary Monitors.C06m Model.C06Run
-  Proofs.Thresholds Proofs.BytesOrder Proofs.VoteSummary.
+  Proofs.Thresholds Proofs.BytesOrder Proofs.VoteSummary Proofs.VoteDistribution.
 Import ListNotations.
 Local Open Scope N_scope.
 Ltac Zify.zify_post_hook ::= Z.div_mod_to_equations.
@@ -254,4 +254,68 @@ Proof.
     by (unfold summarize; cbn [vs_available]; apply available_spec; exact H).
   rewrite Ha in *. rewrite <- !mnr_is_spec.
   rewrite !andb_true_iff, !negb_true_iff, !N.ltb_lt, !N.eqb_neq. repeat split; auto.
+Qed.
+
+(** * Mirror level: one vote message from a sub-minority signer set leaves the voting round alone *)
+
+Theorem minority_message_cannot_move_round vals is_prevote round entries B :
+  1 <= sum_powers vals -> sum_powers vals < two64 ->
+  (forall e, In e entries -> mask_subset (snd e) B) ->
+  mask_power vals B < mnr (sum_powers vals) ->
+  NoDup (keys entries) ->
+  exists pv pc, mirror_predict vals is_prevote round entries = Some (0, pv, pc).
+Proof.
+  intros HT1 HT2 Hsub HB Hnd.
+  assert (Hnil : forall e : hash * N, In e [] -> mask_subset (snd e) B) by (intros e []).
+  unfold mirror_predict. destruct is_prevote.
+  - destruct (round =? 0); [eauto|].
+    destruct (minority_cannot_skip_round vals entries [] B B HT1 HT2 Hsub Hnil HB HB) as [H1 _]; [constructor|].
+    rewrite H1. eauto.
+  - destruct (minority_cannot_skip_round vals [] entries B B HT1 HT2 Hnil Hsub HB HB Hnd) as [_ [H2 H3]].
+    destruct (round =? 0).
+    + rewrite H3. eauto.
+    + rewrite H2. eauto.
+Qed.
+
+Theorem model_satisfies_round_monitor vals is_prevote round entries r pv pc :
+  mirror_predict vals is_prevote round entries = Some (r, pv, pc) ->
+  c06_round_mon vals entries 1 r = true.
+Proof.
+  intros Hp. unfold c06_round_mon.
+  destruct (guard_ok vals entries && (1 <=? sum_powers vals) &&
+            (mask_power vals (union_mask entries) <? spec_minority (sum_powers vals))) eqn:G; [|reflexivity].
+  cbn [negb]. apply andb_true_iff in G as [G G3]. apply andb_true_iff in G as [G1 G2].
+  apply guard_ok_true in G1 as [H Hnd]. apply N.leb_le in G2. apply N.ltb_lt in G3.
+  rewrite <- mnr_is_spec in G3.
+  destruct (minority_message_cannot_move_round vals is_prevote round entries (union_mask entries) G2 H
+              (fun e Hin => entry_subset_union entries e Hin) G3 Hnd) as [pv' [pc' E]].
+  rewrite E in Hp. inversion Hp; subst. reflexivity.
+Qed.
+
+Theorem model_satisfies_sum_monitor vals pv pc :
+  c06_sum_mon vals pv pc (model_obs vals pv pc) = true.
+Proof.
+  unfold c06_sum_mon. destruct (guard_ok vals pv && guard_ok vals pc) eqn:G; [|reflexivity].
+  cbn [negb]. apply andb_true_iff in G as [G1 G2].
+  apply guard_ok_true in G1 as [H Hv]. apply guard_ok_true in G2 as [_ Hc].
+  unfold model_obs, summarize.
+  cbn [o_available o_total_prevote o_total_precommit o_prevote_block o_precommit_block
+       o_most_prevote o_most_precommit vs_available vs_total_prevote vs_total_precommit
+       vs_prevote_block vs_precommit_block vs_most_prevote vs_most_precommit].
+  rewrite (kind_ok_model vals pv H Hv), (kind_ok_model vals pc H Hc), (available_spec _ H), N.eqb_refl.
+  reflexivity.
+Qed.
+
+Theorem model_satisfies_dist_monitor vals entries :
+  let d := vote_distribution vals entries in
+  dist_mon vals entries (d_available d) (d_present d) (d_block d) = true.
+Proof.
+  cbv zeta. unfold dist_mon. destruct (guard_ok vals entries) eqn:G; [|reflexivity].
+  cbn [negb]. apply guard_ok_true in G as [H Hnd].
+  destruct (distribution_spec vals entries H) as [Ha [Hp [Hb [Hk Hn]]]].
+  rewrite Ha, Hp, !N.eqb_refl. cbn [andb]. rewrite !andb_true_iff. repeat split.
+  - apply forallb_forall. intros [h m] Hin. cbn [fst snd]. apply N.eqb_eq. apply Hb; assumption.
+  - apply forallb_forall. intros [h v] Hin. cbn [fst]. apply mem_key_in. apply Hk.
+    unfold keys. apply in_map_iff. exists (h, v). auto.
+  - apply nodup_keys_iff. exact Hn.
 Qed.
